@@ -419,6 +419,15 @@ pub fn first_diff_entry(a: &Value, b: &Value) -> String {
     "(prefix)".to_string()
 }
 
+/// An /all body with its entries ordered by address: the property fixes the
+/// entries, not the order in which they are listed.
+pub fn canonical_all(body: &str) -> Option<Vec<Value>> {
+    let v: Value = serde_json::from_str(body).ok()?;
+    let mut a = v.as_array()?.clone();
+    a.sort_by(|x, y| x["icao24"].as_str().unwrap_or("").cmp(y["icao24"].as_str().unwrap_or("")));
+    Some(a)
+}
+
 /// exactly what web::all puts on the wire (warp::reply::json = serde_json::to_vec)
 pub fn table_text(app: &Jet1090) -> String {
     serde_json::to_string(&app.state_vectors.values().map(|sv| &sv.cur).collect::<Vec<_>>()).unwrap()
@@ -856,9 +865,9 @@ pub fn execute(plan: &C12Plan) -> Outcome<C12Plan> {
     // exactly the updates completed before it
     for (n_done, body) in sh.observations.iter() {
         let want = if *n_done == 0 { "[]".to_string() } else { sh.shadow_tables[*n_done - 1].clone() };
-        if *body != want {
+        if *body != want && canonical_all(body) != canonical_all(&want) {
             let next = sh.shadow_tables.get(*n_done);
-            let loc = if next == Some(body) { "update-visible-before-completion" } else { "half-applied-or-foreign-state" };
+            let loc = if next.map_or(false, |n| canonical_all(n) == canonical_all(body)) { "update-visible-before-completion" } else { "half-applied-or-foreign-state" };
             let body: Value = serde_json::from_str(body).unwrap_or(Value::Null);
             let want: Value = serde_json::from_str(&want).unwrap_or(Value::Null);
             let (body, want) = (&body, &want);
